@@ -291,3 +291,64 @@ func ruleConsumeFlag() check.Rule {
 		},
 	}
 }
+
+// SLOT-GUARD-AGREEMENT: the three callbacks of one observer that are each wrapped in one guard use the same guard.
+func ruleSlotGuardAgreement() check.Rule {
+	return check.Rule{
+		Name: "SLOT-GUARD-AGREEMENT",
+		Doc:  "sibling cross-check: when the next, error and complete callbacks of one upstream observer each consist of a single `if <guard> { ... }`, and two of the guards are the same expression, the third is that expression too (Race's \"am I the winner\" test): a callback whose guard was weakened or strengthened alone treats its notification kind differently from its siblings, e.g. swallows the error of a source that has already won",
+		Run: func(c *check.Ctx) {
+			m := c.M
+			n := 0
+			for _, sc := range m.SCs {
+				armed := c.Armed(sc)
+				for _, s := range sc.SubSites {
+					if s.Observer == nil || s.Observer.Kind != model.AVObserver {
+						continue
+					}
+					var conds [3]string
+					var pos [3]token.Pos
+					ok := true
+					for k := 0; k < 3; k++ {
+						sl := s.Observer.Slots[k]
+						if sl == nil || sl.Lit == nil || len(sl.Lit.Body.List) != 1 {
+							ok = false
+							break
+						}
+						ifs, isIf := sl.Lit.Body.List[0].(*ast.IfStmt)
+						if !isIf || ifs.Else != nil || ifs.Init != nil {
+							ok = false
+							break
+						}
+						conds[k] = types.ExprString(ifs.Cond)
+						pos[k] = ifs.Pos()
+					}
+					if !ok {
+						continue
+					}
+					n++
+					key := s.Key + "/slot-guards"
+					switch {
+					case conds[0] == conds[1] && conds[1] == conds[2]:
+						if armed {
+							c.OK(key, s.Pos, "the three callbacks use the same guard")
+						}
+					case conds[0] == conds[1] || conds[0] == conds[2] || conds[1] == conds[2]:
+						odd := 0
+						if conds[0] == conds[1] {
+							odd = 2
+						} else if conds[0] == conds[2] {
+							odd = 1
+						}
+						c.Report(armed, key, pos[odd], "the %s callback is guarded by `%s` while its two siblings are guarded by `%s`: this kind of notification is let through (or swallowed) in situations where the others are not", model.SlotNames[odd], conds[odd], conds[(odd+1)%3])
+					default:
+						if armed {
+							c.OK(key, s.Pos, "three different guards (no majority to compare with)")
+						}
+					}
+				}
+			}
+			c.Inc("guarded_observers", n)
+		},
+	}
+}
